@@ -120,7 +120,9 @@ def run(fx, rep):
             okk = all(is_own_map(x) for x in ts)
             rep.check(okk, 'R2', '%s/%s/%s' % (nm, F.norm_callee(t).rsplit('::', 1)[-1], '|'.join(sorted(F.term_str(x) for x in ts))), F.loc_of(t['span']),
                       'writes the map owned by *self', 'write through %s: not the scope\'s own map' % [F.term_str(x) for x in ts])
-        rep.check(len(ins) == 2, 'R2', '%s/two-arms' % nm, wb.loc(), 'Root and Child arm each insert into their own map', '%d write sites' % len(ins))
+        nins = [t for bi, t in ins if F.norm_callee(t) == 'std::collections::HashMap::insert']
+        rep.check(len(nins) >= 1 and len(nins) == len(ins), 'R2', '%s/insert-only' % nm, wb.loc(), '%d insert(s) into the own map, no other kind of write' % len(nins),
+                  '%s writes through %s: only HashMap::insert of the new binding is expected' % (nm, sorted({F.norm_callee(t).rsplit('::', 1)[-1] for bi, t in ins})))
         # the new binding is written on every path: a skipped write leaves a stale value visible
         wr = {bi for bi, t in wb.calls() if F.norm_callee(t) == 'std::collections::HashMap::insert'
               and all(F.term_contains(x, lambda y: y == ('param', 3)) for x in wpv.of_operand(t['args'][2]))}
